@@ -46,7 +46,20 @@ func damageLineOnce(line string, rng *PRNG) (string, string) {
 		return "   ", "blank"
 	}
 	for tries := 0; tries < 8; tries++ {
-		switch rng.Intn(16) {
+		switch rng.Intn(17) {
+		case 16: // an option value that is no value of the option's type
+			vi := -1
+			for i, t := range tok {
+				if t == "value" && i+1 < len(tok) {
+					vi = i + 1
+				}
+			}
+			if vi < 0 {
+				continue
+			}
+			t := append([]string{}, tok...)
+			t[vi] = []string{"maybe", "tru", "yes", "on", "2", "-", "true1", "fals"}[rng.Intn(8)]
+			return strings.Join(t, " "), "option_value_invalid"
 		case 15: // the promotion piece of a move is lost or garbled
 			var idx []int
 			for i, t := range tok {
@@ -352,7 +365,16 @@ func GenC16Session(seed uint64) *Scenario {
 		if rng.Intn(400) == 0 {
 			d, kind = line+" "+strings.Repeat("x", 70000), "overlong"
 		}
+		audit := strings.HasPrefix(line, "setoption name ") && kind != "overlong"
+		if audit {
+			// the engine's own configuration print-out before and after the damaged line
+			add(gap, "send", "setoption name Print Config")
+			gap = 20
+		}
 		st := add(gap, "damaged", d)
+		if audit {
+			add(20, "send", "setoption name Print Config")
+		}
 		st.Orig = line
 		st.Fault = "F7_" + kind
 		cmd := strings.Fields(line)[0]
